@@ -826,11 +826,11 @@ pub fn run(ctx: &Ctx) {
     );
 
     // Random search.
-    let n = ctx.tier.pick(200_000u64, 10_000_000u64);
+    let n = ctx.tier.pick(800_000u64, 10_000_000u64);
     run_generated(ctx, "random", n, || case_strategy(16), |c: &LexCase, case| oracle(ctx, c, None, case));
-    let n = ctx.tier.pick(20_000u64, 1_000_000u64);
+    let n = ctx.tier.pick(80_000u64, 1_000_000u64);
     run_generated(ctx, "random_long", n, || case_strategy(60), |c: &LexCase, case| oracle(ctx, c, None, case));
-    let n = ctx.tier.pick(40_000u64, 2_000_000u64);
+    let n = ctx.tier.pick(160_000u64, 2_000_000u64);
     run_generated(ctx, "config_switch", n, switch_strategy, |c: &SwitchCase, case| {
         let second = Cfg::new(&c.second_cats, c.second_endline);
         case.class_if(c.first.endline != c.second_endline, "end-line char changes");
